@@ -304,6 +304,13 @@ def plan_C10(seed, run, engine, tier="quick"):
     if cls in ("CoxEstimator", "SqrtLasso", "GeneralizedLinearEstimator"):
         pool = ["C", "csc", "list"] if cls != "SqrtLasso" else ["C", "list"]
     b = choice(rng, pool)
+    if b == "f32" and "tol" in args and "alpha" in args:
+        # a tolerance below single-precision noise cannot be met in float32 (the solver then
+        # iterates until its in-place model-fit buffer has drifted, see DESIGN 6.3): keep the
+        # request meaningful in single precision
+        Xa, ya = np.array(ds["X"], dtype=float), np.array(ds["y"], dtype=float)
+        noise = 1e-6 * float(np.max(np.abs(Xa)) * (np.max(np.abs(ya)) + 1.0))
+        args["tol"] = float(max(args["tol"], 1e-3 * args["alpha"], noise))
     labels = _labels(rng, ds["kind"])
     ops = [dict(op="new", id="e0", cls=cls, args=args), dict(op="new", id="e1", cls=cls, args=args),
            dict(op="fit", id="e0", data=0, container=a, labels=labels, optimum=False),
